@@ -133,7 +133,13 @@ impl Buildpack for Bp {
         d["layers_dir_hex"] = json!(os_hex(c.layers_dir.as_os_str()));
         d["plan"] = json!(c.buildpack_plan.entries.iter().map(|e| json!({"name": e.name, "metadata": toml_to_json(&toml::Value::Table(e.metadata.clone()))})).collect::<Vec<_>>());
         // the same entries through the typed accessor Entry::metadata::<T>() with a map type: exactly the keys and values of the table
-        d["plan_typed"] = json!(c.buildpack_plan.entries.iter().map(|e| match e.metadata::<std::collections::BTreeMap<String, toml::Value>>() {
+        // (before each of them a typed access that is refused - a required field no entry has -, the way a buildpack probes for the shape
+        // it prefers and falls back: what was refused has no part in what the next access returns)
+        #[derive(serde::Deserialize)]
+        #[allow(dead_code)]
+        struct Preferred { vp_field_no_entry_has: String, #[serde(flatten)] rest: std::collections::BTreeMap<String, toml::Value> }
+        d["plan_typed_refused"] = json!(c.buildpack_plan.entries.iter().filter(|e| e.metadata::<Preferred>().is_err()).count());
+        d["plan_typed"] = json!(c.buildpack_plan.entries.iter().map(|e| match e.metadata::<Preferred>().map(|p| p.rest).or_else(|_| e.metadata::<std::collections::BTreeMap<String, toml::Value>>()) {
             Ok(m) => json!({"name": e.name, "metadata": toml_to_json(&toml::Value::Table(m.into_iter().collect()))}),
             Err(err) => json!({"name": e.name, "error": err.to_string()}),
         }).collect::<Vec<_>>());
